@@ -125,7 +125,6 @@ h_check_gzip_checksum_all0(void)
         int r;
         CK_SNAP_DECL
         HARNESS_ASSUME(state != NULL);
-        HARNESS_ASSUME(state->avail_in <= 0xfffffff7u);
         state->next_in = malloc(state->avail_in);
         HARNESS_ASSUME(state->next_in != NULL);
         CK_SNAP
@@ -194,7 +193,6 @@ h_check_gzip_checksum_all1(void)
         int r;
         CK_SNAP_DECL
         HARNESS_ASSUME(state != NULL);
-        HARNESS_ASSUME(state->avail_in <= 0xfffffff7u);
         state->next_in = malloc(state->avail_in);
         HARNESS_ASSUME(state->next_in != NULL);
         CK_SNAP
@@ -263,7 +261,6 @@ h_check_gzip_checksum_all2(void)
         int r;
         CK_SNAP_DECL
         HARNESS_ASSUME(state != NULL);
-        HARNESS_ASSUME(state->avail_in <= 0xfffffff7u);
         state->next_in = malloc(state->avail_in);
         HARNESS_ASSUME(state->next_in != NULL);
         CK_SNAP
@@ -330,7 +327,6 @@ h_check_zlib_checksum_all0(void)
         int r;
         CK_SNAP_DECL
         HARNESS_ASSUME(state != NULL);
-        HARNESS_ASSUME(state->avail_in <= 0xfffffff7u);
         state->next_in = malloc(state->avail_in);
         HARNESS_ASSUME(state->next_in != NULL);
         CK_SNAP
@@ -403,7 +399,6 @@ h_check_zlib_checksum_all1(void)
         int r;
         CK_SNAP_DECL
         HARNESS_ASSUME(state != NULL);
-        HARNESS_ASSUME(state->avail_in <= 0xfffffff7u);
         state->next_in = malloc(state->avail_in);
         HARNESS_ASSUME(state->next_in != NULL);
         CK_SNAP
